@@ -388,7 +388,13 @@ func (p *Program) runPath(sv *solver, pkgPath string, fn *ssa.Function, prefix [
 				pr.Msg = r.msg
 			case pathDeadlock:
 				pr.Status = "ok"
-				i.recordViolation("deadlock", "", "all goroutines blocked:"+r.desc, false)
+				known := ""
+				if ps.knownDeadlockID != "" && ps.knownDeadlockCond != nil {
+					if b, ok := (*ps.knownDeadlockCond).(bool); ok && b {
+						known = ps.knownDeadlockID
+					}
+				}
+				i.recordViolation("deadlock", known, "all goroutines blocked:"+r.desc, false)
 			case targetPanic:
 				pr.Status = "ok"
 				i.recordViolation("panic", "", "uncaught panic: "+i.describePanic(r.v), false)
@@ -612,7 +618,7 @@ func skipInit(path string) bool {
 	switch path {
 	case "runtime", "internal/cpu", "internal/godebug", "runtime/debug", "runtime/pprof", "runtime/trace",
 		"net", "crypto/tls", "crypto/x509", "os/signal", "os/exec", "os/user",
-		"testing", "flag", "log", "expvar", "internal/testlog", "crypto/internal/fips140/check",
+		"testing", "flag", "expvar", "internal/testlog", "crypto/internal/fips140/check",
 		"golang.org/x/sys/cpu", "internal/syscall/unix", "vendor/golang.org/x/sys/cpu":
 		return true
 	}
